@@ -1,0 +1,20 @@
+//! Verification hook. Compiled only with `--cfg rumqtt_verif`: lets a test harness hand the
+//! event loop an in-memory transport instead of a socket, so that `EventLoop::poll` runs its
+//! real connect / handshake / keep-alive code deterministically (e.g. under paused tokio time).
+use std::cell::RefCell;
+
+pub type Stream = tokio::io::DuplexStream;
+type Connector = Box<dyn FnMut() -> Option<Stream>>;
+
+thread_local! {
+    static CONNECTOR: RefCell<Option<Connector>> = const { RefCell::new(None) };
+}
+
+/// Installs (or removes) the connector of the current thread
+pub fn set_connector(connector: Option<Connector>) {
+    CONNECTOR.with(|c| *c.borrow_mut() = connector);
+}
+
+pub(crate) fn connect() -> Option<Stream> {
+    CONNECTOR.with(|c| c.borrow_mut().as_mut().and_then(|f| f()))
+}
